@@ -45,6 +45,10 @@ type CohCase struct {
 	Rounds   [][][]CohMut `json:"rounds"` // round -> mutator -> mutations
 	RaceGets int          `json:"race_gets"`
 	Optional []string     `json:"optional"`
+	// Nest: where the handler is registered: 0 on the service, 1 on a Mux
+	// mounted on it, 2 and 3 on a Mux mounted on a Mux mounted on it (2: the
+	// inner one is mounted first, 3: the outer one)
+	Nest int `json:"nest,omitempty"`
 }
 
 // StoreCohScenario: clients of store-backed resources stay coherent with a
@@ -84,6 +88,7 @@ func (StoreCohScenario) GenCase(r *rand.Rand, prop string) interface{} {
 	c.Trans = pick(r, "none", "id", "custom", "hide")
 	c.Default = chance(r, 40)
 	c.Workers = pick(r, 1, 2, 4)
+	c.Nest = pick(r, 0, 0, 0, 1, 2, 3)
 	for _, p := range append(append([]string{}, storePoints...), "conn.Publish", "event", "rawEvent", "worker.beforeCb", "handleRequest", "runWith.beforeLock", "auto.lock") {
 		if chance(r, 60) {
 			c.Optional = append(c.Optional, p)
@@ -190,12 +195,20 @@ type cohRun struct {
 
 func (cr *cohRun) storeID(id string) string {
 	if cr.c.Trans == "none" {
-		return "test.item." + id
+		return cr.rid(id)
 	}
 	return id
 }
 
-func (cr *cohRun) rid(id string) string { return "test.item." + id }
+func (cr *cohRun) rid(id string) string {
+	switch cr.c.Nest {
+	case 1:
+		return "test.api.item." + id
+	case 2, 3:
+		return "test.api.v1.item." + id
+	}
+	return "test.item." + id
+}
 
 // customTransform is the handler's custom transform: it drops property "c"
 // of models (so changes to it do not alter the served representation) and
@@ -354,7 +367,24 @@ func (StoreCohScenario) Execute(sim *sched.Sim, ci interface{}, prop string, rac
 	if c.Coll {
 		typ = res.Collection
 	}
-	m.svc.Handle("item.$id", typ, sh)
+	switch c.Nest {
+	case 0:
+		m.svc.Handle("item.$id", typ, sh)
+	case 1:
+		mx := res.NewMux("")
+		mx.Handle("item.$id", typ, sh)
+		m.svc.Mount("api", mx)
+	case 2:
+		inner, outer := res.NewMux(""), res.NewMux("")
+		inner.Handle("item.$id", typ, sh)
+		outer.Mount("v1", inner)
+		m.svc.Mount("api", outer)
+	case 3:
+		inner, outer := res.NewMux(""), res.NewMux("")
+		m.svc.Mount("api", outer)
+		outer.Mount("v1", inner)
+		inner.Handle("item.$id", typ, sh)
+	}
 	m.start()
 
 	evals := 0
